@@ -72,6 +72,15 @@ def engine_spec(name):
         objs += [("gen_rc", "gen_rc.cpp", ["g++", "-std=gnu++17", "-O1", "-g"])]
         link = ["g++", "-fsanitize=address,undefined"]
         libs = ["-lrapidcheck"]
+    elif name == "schedtsan":
+        # the schedule engine with ThreadSanitizer as the oracle (C07): the baton scheduler chooses the interleaving, its own
+        # synchronisation is hidden from TSan by annotations, so a race that needs a particular interleaving is both reached and seen
+        fl = ["clang++", "-std=gnu++17", "-O1", "-g", "-fsanitize=thread", "-fno-omit-frame-pointer", "-DCAPPUCCINO_VERIF_HOOKS", "-DVERIF_VALUE_POINTS",
+              "-DVERIF_TSAN_SCHED", "-pthread"]
+        objs = [("ad%d" % k, "adapters.cpp", fl + ["-DVERIF_KIND=%d" % k]) for k in range(10)]
+        objs += [(n, n + ".cpp", fl) for n in ("box_common", "interpose", "sched")]
+        link = ["clang++", "-fsanitize=thread", "-pthread"]
+        libs = ["-lrapidcheck"]
     elif name == "plain":
         # the sequential engine without sanitizers and without checked iterators (whose bookkeeping is linear in the number of
         # stored iterators): only for the statistical rr runs at large capacities, where the oracle is a count
@@ -757,7 +766,7 @@ def main():
         return 2
     cmd = sys.argv[1]
     if cmd == "setup":
-        for e in ("seq", "fuzz", "race", "sched", "plain"):
+        for e in ("seq", "fuzz", "race", "sched", "plain", "schedtsan"):
             build(e)
         return 0
     if cmd == "check":
